@@ -22,6 +22,7 @@ type sctx struct {
 	quoteOnly   bool // every enclosing container is a block quote
 	inQuote     bool
 	firstInItem bool // first block of a list item: no extra indentation
+	inItem      bool // somewhere inside a list item (blank lines between blocks decide looseness there)
 	flush       bool // the previous sibling is a list: indentation would make this block part of its last item
 }
 
@@ -159,7 +160,7 @@ func (g *gen) blockLines(b *blk, c sctx) []line {
 		return out
 	case kQuote:
 		var out []line
-		inner := g.blocksLines(b.kids, false, sctx{quoteOnly: c.quoteOnly, inQuote: true})
+		inner := g.blocksLines(b.kids, false, sctx{quoteOnly: c.quoteOnly, inQuote: true, inItem: c.inItem})
 		ind := g.indent(c)
 		for _, l := range inner {
 			switch {
@@ -201,7 +202,7 @@ func (g *gen) blockLines(b *blk, c sctx) []line {
 			}
 			pad := strings.Repeat(" ", n)
 			cont := strings.Repeat(" ", len(ind)+len(marker)+n)
-			inner := g.blocksLines(item, !b.loose, sctx{firstInItem: true})
+			inner := g.blocksLines(item, !b.loose, sctx{firstInItem: true, inItem: true})
 			for j, l := range inner {
 				switch {
 				case j == 0:
@@ -267,7 +268,11 @@ func (g *gen) blocksLines(bs []*blk, tight bool, c sctx) []line {
 	var out []line
 	for i, b := range bs {
 		if i > 0 && !tight {
-			out = append(out, line{})
+			if !c.inItem && g.free() && g.adjacentOK(bs[i-1], b) && g.r.Intn(3) == 0 {
+				g.f("spelling:no-blank-line-between-blocks")
+			} else {
+				out = append(out, line{})
+			}
 		}
 		bc := c
 		if i > 0 {
@@ -317,4 +322,46 @@ func (g *gen) serialize(top []*blk) string {
 		sb.WriteString("\n")
 	}
 	return sb.String()
+}
+
+// adjacentOK reports whether next may directly follow prev without a blank line
+// with the same meaning (each pair is fixed by a sentence of the spec: what can
+// interrupt a paragraph, and that headings, breaks, closed fences and HTML blocks
+// of kinds 1-5 end on their own line).
+func (g *gen) adjacentOK(prev, next *blk) bool {
+	breakOK := next.k == kBreak && (strings.HasPrefix(next.brk, "*") || strings.HasPrefix(next.brk, "_"))
+	switch prev.k {
+	case kPara:
+		switch next.k {
+		case kATX, kFenced, kQuote:
+			return true
+		case kBreak:
+			return breakOK
+		case kBullet:
+			return true // items always have content on their first line
+		case kOrdered:
+			return next.start == 1
+		case kHTML:
+			return true // the samples are of kinds 1, 2, 3 and 6, which can interrupt a paragraph
+		}
+		return false
+	case kATX, kSetext, kBreak, kFenced:
+		if next.k == kPara || next.k == kSetext {
+			return true
+		}
+		return next.k != kIndented || true
+	case kQuote:
+		// anything else could be read as a lazy continuation or would need more rules
+		return next.k == kATX || next.k == kFenced || breakOK
+	case kHTML:
+		// kinds 1-5 end with their end condition; kind 6 needs the blank line
+		l := prev.lines[0]
+		return strings.HasPrefix(l, "<!--") || strings.HasPrefix(l, "<pre") || strings.HasPrefix(l, "<?")
+	case kRefDef:
+		if next.k == kRefDef {
+			return true
+		}
+		return next.k == kPara && len(next.inl) > 0 && next.inl[0].k == iWord
+	}
+	return false
 }
